@@ -34,22 +34,25 @@ ASSUMPTIONS = [
     "bound methods are equal iff they wrap the same function (the library's documented intent for method-valued attributes)",
     "exact truth value of == between an instance and an instance of a sub/superclass is not judged (only symmetry and transitivity)",
 ]
-KINDS = ["int", "str", "list", "leaf", "method", "func", "cls", "mod", "any", "masked", "speccls", "ownrepr", "boundfn"]
-ANN = {"int": "int", "str": "str", "list": "List[int]", "leaf": "Leaf", "method": "Callable", "func": "Callable", "cls": "type", "mod": "Any", "any": "Any", "masked": "Callable", "speccls": "type", "ownrepr": "OwnRepr", "boundfn": "Callable"}
+KINDS = ["int", "str", "list", "leaf", "method", "func", "cls", "mod", "any", "masked", "speccls", "ownrepr", "boundfn", "nan"]
+ANN = {"int": "int", "str": "str", "list": "List[int]", "leaf": "Leaf", "method": "Callable", "func": "Callable", "cls": "type", "mod": "Any", "any": "Any", "masked": "Callable", "speccls": "type", "ownrepr": "OwnRepr", "boundfn": "Callable", "nan": "float"}
 
 
 def GATES(tier):
     return [("comparisons_judged", 2000), ("one_off_pairs", 300), ("triples_checked", 200), ("copies_checked", 100), ("reprs_checked", 300),
-            ("repr_self_reference", 10), ("repr_indented", 10), ("method_before_difference", 20), ("subclass_pairs", 50), ("subclass_triples", 200), ("repr_keyed_child_missing_key", 10)] + [(f"diff_kind:{k}", 5) for k in KINDS]
+            ("repr_self_reference", 10), ("repr_indented", 10), ("method_before_difference", 20), ("subclass_pairs", 50), ("subclass_triples", 200), ("reflexive_checked", 200), ("self_referential_copies", 10), ("repr_keyed_child_missing_key", 10)] + [(f"diff_kind:{k}", 5) for k in KINDS]
 
 
 SRC_HEAD = '''
 import math, json
 from typing import Any, Callable, List
 from spec_classes import spec_class, Attr
+from spec_classes.types import KeyedSet
 
 def f1(): return 1
 def f2(): return 2
+
+NAN = float("nan")  # one object: identical values are equal, as for the elements of builtin containers
 
 def detached_a(self): return "detached a"
 detached_a.__name__ = "helper"  # same name as a method of the class, different function
@@ -87,7 +90,8 @@ def make_source(kinds, flags, boot):
         if k == "masked":  # the attribute is masked by a method of the same name unless overridden on the instance
             lines += [f"    def a{i}(self):", f"        return 'class-level a{i}'"]
     lines += ["    def helper(self):", "        return 1", "    def other(self):", "        return 2", ""]
-    lines += [f"@spec_class(bootstrap={boot})", "class F(E):", "    extra: int = 0", "", "class G(E):", "    pass", ""]
+    redefault = {"int": "    a0 = 0", "str": "    a0 = 'a'"}.get(kinds[0])
+    lines += [f"@spec_class(bootstrap={boot})", "class F(E):", "    extra: int = 0"] + ([redefault + "  # re-defaulted: compare / repr settings of E.a0 still apply"] if redefault else []) + ["", "class G(E):", "    pass", ""]
     return "\n".join(lines)
 
 
@@ -118,6 +122,8 @@ def value(ns, kind, which, inst):
         return types.MethodType([ns["detached_a"], ns["detached_b"]][which], inst)
     if kind == "ownrepr":
         return ns["OwnRepr"](v=which + 1)
+    if kind == "nan":
+        return [ns["NAN"], 1.5][which]
     if kind == "mod":
         return [math, json][which]
     if kind == "any":
@@ -138,6 +144,8 @@ def build(ns, cname, kinds, choice):
 def ref_equal_values(va, vb):
     import inspect
 
+    if va is vb:
+        return True  # identical values are equal (as for the elements of builtin containers), NaN included
     if inspect.ismethod(va) and inspect.ismethod(vb):
         return va.__func__ is vb.__func__
     return va == vb
@@ -265,6 +273,18 @@ def run(ctx, params):
                 diffpos = [i for i, (a, b) in enumerate(zip(ca, cb)) if a != b]
                 report("eq_pairs", f"x == y -> {r1}, y == x -> {r2}, x != y -> {ne}; reference says {expected}; attributes differing: {[(i, kinds[i], flags[i][0]) for i in diffpos]}",
                        diff_kinds=sorted({kinds[i] for i in diffpos}), expected=expected)
+        # reflexivity (also for values that are not equal to themselves, and for the instance holding them)
+        for cn, c, x in insts:
+            ctx.count("comparisons_judged")
+            ctx.count("reflexive_checked")
+            try:
+                r = x == x
+            except Exception as e:
+                report("eq_total", f"x == x raised {type(e).__name__}: {e}")
+                continue
+            if r is not True:
+                present = [kinds[i] for i, v in enumerate(c) if v is not None]
+                report("eq_reflexive", f"x == x -> {r} for an instance holding kinds {present}", kinds_present=sorted(set(present)))
         # E3: transitivity on sampled triples
         idx = list(range(len(insts)))
         for _ in range(params["triples"]):
@@ -333,6 +353,25 @@ def run(ctx, params):
             setattr(p, f"a{anys[0]}", q)
             setattr(q, f"a{anys[0]}", p)
             specials.append(("cycle", p))
+            # an instance that is a member of a keyed set it holds itself
+            s7 = build(ns, "E", kinds, base_choice)
+            setattr(s7, f"a{anys[0]}", ns["KeyedSet"]([s7], key=id))
+            specials.append(("self_in_keyed_set", s7))
+            # copies of self-referential instances: terminate, and refer to themselves
+            for label, x in list(specials)[:3]:
+                ctx.count("copies_checked")
+                ctx.count("self_referential_copies")
+                try:
+                    y = copy.deepcopy(x)
+                    v = getattr(y, f"a{anys[0]}")
+                    inner = v if label == "self_reference" else (v[0] if label == "self_in_container" else getattr(v, f"a{anys[0]}", None))
+                    ok = (inner is y) if label != "cycle" else (inner is y and v is not x and v is not y)
+                    if not ok:
+                        report("deepcopy_equal", f"deepcopy of a {label} instance does not reproduce the self reference", label=label)
+                    elif not (y == y):
+                        report("eq_reflexive", f"the deepcopy of a {label} instance is not equal to itself", label=label)
+                except BaseException as e:  # noqa
+                    report("deepcopy_equal", f"deepcopy / == of a {label} instance raised {type(e).__name__}: {str(e)[:80]}", label=label)
             # a keyed nested spec instance whose key is missing (rendered compactly as a child, and inside containers)
             for how in ("direct", "in_list", "in_dict"):
                 kl = ns["KL"]("a")
@@ -357,7 +396,7 @@ def run(ctx, params):
             ctx.count("reprs_checked")
             if label.startswith("keyed_child_missing_key"):
                 ctx.count("repr_keyed_child_missing_key")
-            if label in ("self_reference", "self_in_container", "cycle"):
+            if label in ("self_reference", "self_in_container", "cycle", "self_in_keyed_set"):
                 ctx.count("repr_self_reference")
             try:
                 text = repr(x)
